@@ -35,7 +35,8 @@ def synth_rows(pbc, rng):
         drop = -k * (i - apex) ** 2 + rng.choice([0, 0, rng.uniform(-0.05, 0.05)])
         z = U.Foot(0)
         rows.append(pbc.TrajectoryData(i * 0.01, U.Foot(x), U.FPS(2000), 1.5, U.Foot(drop), U.Foot(drop), U.Radian(0), z, U.Radian(0),
-                                       U.Foot(x), U.Radian(0), 0.0, 0.0, U.FootPound(1), U.Pound(1), 8))
+                                       U.Foot(x), U.Radian(0), 0.0, 0.0, U.FootPound(1), U.Pound(1),
+                                       rng.choice([8, 8, 8, 1, 2, 4, 16, 9, 10, 12, 0])))   # event rows count like any other row
         x += rng.choice([1.0, 3.0, rng.uniform(0.5, 10)])
     return rows
 
